@@ -317,6 +317,10 @@ def main():
     for rec in [x for x in records if x["ok1"]][:3] + records[-2:]:
         ck.sample({"id": rec["id"], "type": key_of(rec, "").split("|")[2], "input": rec["repr"], "first": rec["r1"], "second": rec["r2"],
                    "ok": [rec["ok1"], rec["ok2"]]})
+    # the repository's own test-suite as a driver (harness/suite.py): its executions judged by TLC (Trace_Suite)
+    from .. import suite
+    for key_, clause_, rec_ in suite.stage(ck, "idem", "C03"):
+        ck.violation(key_, clause_, rec_)
     for t in r.tagged("VIOL"):
         rec = byid[t[1]]
         ck.violation(key_of(rec, t[2]), t[2], rec)
